@@ -136,6 +136,42 @@ def parse_print_json(out, tag):
     return res
 
 
+class _Slots:
+    """Machine-wide CPU budget for TLC processes (several checks may run side by side): a run with w workers
+    holds w of NSLOTS lock files for its duration."""
+    NSLOTS = max(8, NCPU + NCPU // 2)
+    DIR = "/tmp/verif-slots"
+
+    def __init__(self, want):
+        self.want, self.held = max(1, min(want, self.NSLOTS)), []
+
+    def __enter__(self):
+        import fcntl
+        os.makedirs(self.DIR, exist_ok=True)
+        t0 = time.time()
+        while True:
+            for i in range(self.NSLOTS):
+                if len(self.held) >= self.want:
+                    break
+                f = open(os.path.join(self.DIR, "slot%d" % i), "w")
+                try:
+                    fcntl.flock(f, fcntl.LOCK_EX | fcntl.LOCK_NB)
+                    self.held.append(f)
+                except OSError:
+                    f.close()
+            if len(self.held) >= self.want or (self.held and time.time() - t0 > 600):
+                return self
+            for f in self.held:
+                f.close()
+            self.held = []
+            time.sleep(0.3 + 0.5 * (os.getpid() % 7) / 7.0)
+
+    def __exit__(self, *a):
+        for f in self.held:
+            f.close()
+        self.held = []
+
+
 def tlc(module, cfg, scratch, env=None, workers=None, timeout=1800, args=(), heap="4g",
         files=None, deadlock=None):
     """Run TLC on spec/<module>.tla with spec/<cfg> inside a scratch copy of spec/.
@@ -153,16 +189,21 @@ def tlc(module, cfg, scratch, env=None, workers=None, timeout=1800, args=(), hea
     e.pop("JAVA_TOOL_OPTIONS", None)
     if env:
         e.update({k: str(v) for k, v in env.items()})
-    cmd = ["java", "-XX:+UseParallelGC", "-Xmx" + heap, "-Xss512m", "-cp", TLA_CP, "tlc2.TLC",
+    nw = workers or 1
+    cmd = ["java", "-XX:+UseParallelGC", "-XX:ParallelGCThreads=%d" % max(1, min(4, nw)), "-XX:CICompilerCount=2",
+           "-Xmx" + heap, "-Xss512m", "-cp", TLA_CP, "tlc2.TLC",
            "-metadir", meta, "-workers", str(workers or 1), "-config", cfg, "-noGenerateSpecTE"]
     if deadlock is False:
         cmd.append("-deadlock")
     cmd += list(args) + [module]
-    t0 = time.time()
     try:
-        r = subprocess.run(cmd, cwd=wd, env=e, capture_output=True, text=True, timeout=timeout)
+        with _Slots(nw):
+            t0 = time.time()
+            r = subprocess.run(cmd, cwd=wd, env=e, capture_output=True, text=True, timeout=timeout)
     except subprocess.TimeoutExpired:
         raise Infra("TLC %s/%s timed out after %ss" % (module, cfg, timeout))
+    except NameError:
+        raise
     finally:
         shutil.rmtree(meta, ignore_errors=True)
     res = TLCResult()
